@@ -200,6 +200,16 @@ func genBatchPoints(t *rapid.T, l Layout, now int64, id int, o histGenOpts) []MP
 	return normalizeBatch(l, now, id, pts)
 }
 
+// nanWritable: a write may carry the value NaN (a value like any other for the slot it lands in: copy -copy-nan
+// and sum-copy store it) where it cannot reach an aggregation - the coarsest archive by name, or a
+// single-archive file. How a stored NaN enters an aggregate is not asserted anywhere (zone Z8).
+func nanWritable(l Layout, id int, o histGenOpts) bool {
+	if o.UniqueValues {
+		return false
+	}
+	return len(l.Archives) == 1 || id == len(l.Archives)-1
+}
+
 func genWindows(t *rapid.T, l Layout, now int64, n int) []Window {
 	var ws []Window
 	for i := 0; i < n; i++ {
@@ -269,10 +279,20 @@ func genHistoryAt(t *rapid.T, l Layout, o histGenOpts, now int64) HistCase {
 			}
 			op.T = now - age
 			op.V = F64(genVal(t, o.UniqueValues, i))
+			if nanWritable(l, op.ID, o) && rapid.IntRange(0, 5).Draw(t, "nanUpdate") == 0 {
+				op.V = F64(math.NaN())
+			}
 		case k < 12:
 			op.Kind = "batch"
 			op.ID = rapid.IntRange(-1, len(l.Archives)-1).Draw(t, "batchID")
 			op.Points = genBatchPoints(t, l, now, op.ID, o)
+			if nanWritable(l, op.ID, o) && len(op.Points) > 0 && len(op.Points) <= 400 && rapid.IntRange(0, 3).Draw(t, "nanBatch") == 0 {
+				for j := range op.Points {
+					if rapid.IntRange(0, 2).Draw(t, "nanPoint") == 0 {
+						op.Points[j].V = F64(math.NaN())
+					}
+				}
+			}
 		case k < 16:
 			op.Kind = "advance"
 			a := l.Archives[rapid.IntRange(0, len(l.Archives)-1).Draw(t, "advArch")]
